@@ -4,7 +4,9 @@
   property C02; imports neither `Model` nor `Gen`.
 
   * `Expr`        abstract syntax: one constructor per written construct; `paren` nodes are the written
-                  parentheses (necessary or redundant ones alike).
+                  parentheses (necessary or redundant ones alike).  Numeric literals are a superset of
+                  what Excel stores: any decimal numeral (`12`, `1.5`, `5.`, `.5`) with an optional
+                  exponent `E±digits` on any such mantissa (`80E-3`, not only Excel's `8E-2`).
   * `WF`          well-formedness: lexical shape of the atoms and the places where parentheses are
                   *required* (operand of a tighter operator, right operand of an equal-precedence operator,
                   operand of a unary minus).
@@ -46,8 +48,11 @@ def digitsVal (ds : List Nat) : Nat := ds.foldl (fun a d => a * 10 + d) 0
 
 def AllDigits (ds : List Nat) : Prop := ∀ d ∈ ds, d < 10
 
-/-- a numeric literal in the form Excel stores: `digits`, `digits.digits`, or the normalised scientific
-    form `d(.digits)?E±digits` with `d` in 1..9 -/
+/-- a numeric literal: a decimal numeral `digits`, `digits.digits`, `digits.` or `.digits`, optionally
+    followed by an exponent `E±digits`.  Excel itself stores only `digits`, `digits.digits` and the
+    normalised scientific form `d(.digits)?E±digits`; the other spellings are what users (and programs
+    calling the formula reader) write, and the grammar covers them too.
+    `fp = none`: no point; `fp = some []`: a point without fraction digits (`5.`); `ip = []`: `.5` -/
 structure NumLit where
   ip : List Nat
   fp : Option (List Nat) := none
@@ -61,15 +66,17 @@ def NumLit.text (n : NumLit) : List Char :=
    | none => []
    | some (neg, ds) => 'E' :: (if neg then '-' else '+') :: ds.map digitChar)
 
-def NumLit.WF (n : NumLit) : Prop :=
-  n.ip ≠ [] ∧ AllDigits n.ip ∧
-  (match n.fp with | none => True | some f => f ≠ [] ∧ AllDigits f) ∧
-  (match n.exp with
-   | none => True
-   | some (_, ds) => ds ≠ [] ∧ AllDigits ds ∧ ∃ d, n.ip = [d] ∧ 1 ≤ d)
-
 /-- fraction digits -/
 def NumLit.fdigits (n : NumLit) : List Nat := match n.fp with | none => [] | some f => f
+
+/-- at least one mantissa digit (before or after the point), only digits, and a non-empty exponent
+    digit run where an exponent is written -/
+def NumLit.WF (n : NumLit) : Prop :=
+  (n.ip ≠ [] ∨ n.fdigits ≠ []) ∧ AllDigits n.ip ∧
+  (match n.fp with | none => True | some f => AllDigits f) ∧
+  (match n.exp with
+   | none => True
+   | some (_, ds) => ds ≠ [] ∧ AllDigits ds)
 
 /-- the number a literal without exponent denotes -/
 def NumLit.value (n : NumLit) : Rat :=
@@ -283,11 +290,11 @@ end
 def allDigitsB (ds : List Nat) : Bool := ds.all fun d => decide (d < 10)
 
 def NumLit.wfB (n : NumLit) : Bool :=
-  !n.ip.isEmpty && allDigitsB n.ip &&
-  (match n.fp with | none => true | some f => !f.isEmpty && allDigitsB f) &&
+  (!n.ip.isEmpty || !n.fdigits.isEmpty) && allDigitsB n.ip &&
+  (match n.fp with | none => true | some f => allDigitsB f) &&
   (match n.exp with
    | none => true
-   | some (_, ds) => !ds.isEmpty && allDigitsB ds && (match n.ip with | [d] => decide (1 ≤ d) | _ => false))
+   | some (_, ds) => !ds.isEmpty && allDigitsB ds)
 
 def NumLit.pctOKB (n : NumLit) : Bool := n.exp.isNone && decide (n.ip.length ≤ 300)
 
